@@ -27,6 +27,87 @@ func c19Cfg() *mrogen.ProgCfg {
 
 // applyEdit does what `mro edit` does for one file: compile, Refactor,
 // apply the edit to the uncompiled parse, format.
+// A program spread over several files (main.mro including pipes.mro and
+// sub/types.mro, as mrogen.SourceFiles lays it out) travels through this test
+// as one string: "\x00FILE <name>\n<content>" per file.
+const fileMark = "\x00FILE "
+
+var setOrder = []string{"main.mro", "pipes.mro", "sub/types.mro"}
+
+func encodeSet(files map[string]string) string {
+	var b strings.Builder
+	for _, n := range setOrder {
+		b.WriteString(fileMark + n + "\n" + files[n])
+	}
+	return b.String()
+}
+
+func decodeSet(text string) map[string]string {
+	files := map[string]string{}
+	for _, part := range strings.Split(text, fileMark)[1:] {
+		i := strings.IndexByte(part, '\n')
+		files[part[:i]] = part[i+1:]
+	}
+	return files
+}
+
+func isSet(text string) bool { return strings.HasPrefix(text, fileMark) }
+
+// writeSet puts the files below the directory of path.
+func writeSet(text, path string) (string, map[string]string) {
+	dir := filepath.Join(filepath.Dir(path), "c19set")
+	files := decodeSet(text)
+	for n, c := range files {
+		p := filepath.Join(dir, n)
+		os.MkdirAll(filepath.Dir(p), 0o755)
+		os.WriteFile(p, []byte(c), 0o644)
+	}
+	return dir, files
+}
+
+// applyEditSet does what `mro edit -w main.mro pipes.mro sub/types.mro` does:
+// every file is compiled (with its includes), one Refactor over all of them,
+// the edit replayed on the unchecked parse of each file, each formatted.
+func applyEditSet(text, path string, conf refactoring.RefactorConfig) (string, int, []*syntax.Ast, error) {
+	dir, files := writeSet(text, path)
+	var parser syntax.Parser
+	var asts []*syntax.Ast
+	for _, n := range setOrder {
+		_, _, ast, err := parser.ParseSourceBytes([]byte(files[n]), filepath.Join(dir, n), []string{dir}, false)
+		if err != nil {
+			return "", 0, nil, fmt.Errorf("compile %s: %w", n, err)
+		}
+		asts = append(asts, ast)
+	}
+	payload, _ := json.Marshal(map[string]any{"src": text, "conf": conf})
+	stats.Inflight("C19/refactor-kills-process", payload)
+	edit, err := refactoring.Refactor(asts, conf)
+	stats.InflightDone()
+	if err != nil {
+		return "", 0, nil, fmt.Errorf("refactor: %w", err)
+	}
+	if edit == nil {
+		return text, 0, nil, nil
+	}
+	total := 0
+	out := map[string]string{}
+	var edited []*syntax.Ast
+	for _, n := range setOrder {
+		ast, err := parser.UncheckedParse([]byte(files[n]), filepath.Join(dir, n))
+		if err != nil {
+			return "", 0, nil, err
+		}
+		c, err := edit.Apply(ast)
+		if err != nil {
+			return "", total, nil, fmt.Errorf("apply to %s: %w", n, err)
+		}
+		total += c
+		out[n] = ast.Format()
+		edited = append(edited, ast)
+	}
+	return encodeSet(out), total, edited, nil
+}
+
 func applyEdit(src, path string, conf refactoring.RefactorConfig) (string, int, error) {
 	out, n, _, err := applyEditAst(src, path, conf)
 	return out, n, err
@@ -54,7 +135,16 @@ func expHasSplit(e syntax.Exp) bool {
 
 // mapCallWithoutSplit names a map call of the (uncompiled) AST none of whose
 // bindings is split over any more.
-func mapCallWithoutSplit(ast *syntax.Ast) string {
+func mapCallWithoutSplit(asts []*syntax.Ast) string {
+	for _, ast := range asts {
+		if w := mapCallWithoutSplit1(ast); w != "" {
+			return w
+		}
+	}
+	return ""
+}
+
+func mapCallWithoutSplit1(ast *syntax.Ast) string {
 	for _, pl := range ast.Pipelines {
 		for _, c := range pl.Calls {
 			if c.Mapping == nil {
@@ -76,7 +166,34 @@ func mapCallWithoutSplit(ast *syntax.Ast) string {
 
 // emptyCallableUsedAsType names a callable of the (uncompiled) AST that has no
 // outputs while its name is used as a type.
-func emptyCallableUsedAsType(ast *syntax.Ast) string {
+func emptyCallableUsedAsType(asts []*syntax.Ast) string {
+	used := map[string]bool{}
+	var callables []syntax.Callable
+	for _, ast := range asts {
+		callables = append(callables, ast.Callables.List...)
+		for _, st := range ast.StructTypes {
+			for _, m := range st.Members {
+				used[m.Tname.Tname] = true
+			}
+		}
+	}
+	for _, c := range callables {
+		for _, p := range c.GetInParams().List {
+			used[p.Tname.Tname] = true
+		}
+		for _, p := range c.GetOutParams().List {
+			used[p.Tname.Tname] = true
+		}
+	}
+	for _, c := range callables {
+		if len(c.GetOutParams().List) == 0 && used[c.GetId()] {
+			return c.GetId()
+		}
+	}
+	return ""
+}
+
+func emptyCallableUsedAsTypeOld(ast *syntax.Ast) string {
 	used := map[string]bool{}
 	for _, c := range ast.Callables.List {
 		for _, p := range c.GetInParams().List {
@@ -99,7 +216,18 @@ func emptyCallableUsedAsType(ast *syntax.Ast) string {
 	return ""
 }
 
-func applyEditAst(src, path string, conf refactoring.RefactorConfig) (string, int, *syntax.Ast, error) {
+func applyEditAst(src, path string, conf refactoring.RefactorConfig) (string, int, []*syntax.Ast, error) {
+	if isSet(src) {
+		return applyEditSet(src, path, conf)
+	}
+	out, n, ast, err := applyEditOne(src, path, conf)
+	if ast == nil {
+		return out, n, nil, err
+	}
+	return out, n, []*syntax.Ast{ast}, err
+}
+
+func applyEditOne(src, path string, conf refactoring.RefactorConfig) (string, int, *syntax.Ast, error) {
 	var parser syntax.Parser
 	_, _, compiled, err := parser.ParseSourceBytes([]byte(src), path, nil, false)
 	if err != nil {
@@ -673,7 +801,12 @@ func typeNameUsed(prog *mrogen.Program, callable string) bool {
 }
 
 func callGraphJSON(src, path string) (string, *syntax.Ast, error) {
-	_, _, ast, err := syntax.ParseSourceBytes([]byte(src), path, nil, false)
+	var incl []string
+	if isSet(src) {
+		dir, files := writeSet(src, path)
+		src, path, incl = files["main.mro"], filepath.Join(dir, "main.mro"), []string{dir}
+	}
+	_, _, ast, err := syntax.ParseSourceBytes([]byte(src), path, incl, false)
 	if err != nil {
 		return "", nil, err
 	}
@@ -732,7 +865,14 @@ func TestC19Refactor(t *testing.T) {
 		for _, pl := range prog.Pipelines {
 			twin(pl.Name, append([]mrogen.Param{}, pl.Outs...))
 		}
-		src := prog.Source(nil)
+		multi := rapid.IntRange(0, 3).Draw(t, "multiFile") == 0
+		render := func() string {
+			if multi {
+				return encodeSet(prog.SourceFiles(nil))
+			}
+			return prog.Source(nil)
+		}
+		src := render()
 		j0, ast0, err := callGraphJSON(src, path)
 		if err != nil {
 			t.Fatalf("GENERATOR: %v\n%s", err, src)
@@ -888,6 +1028,9 @@ func TestC19Refactor(t *testing.T) {
 			return
 		}
 		classes := []string{"edit:" + kind}
+		if multi {
+			classes = append(classes, "multi-file")
+		}
 		if twins > 0 {
 			classes = append(classes, "prefix-twin-output-names")
 		}
@@ -897,7 +1040,7 @@ func TestC19Refactor(t *testing.T) {
 		switch kind {
 		case "rename-callable", "rename-input", "rename-output":
 			irEdit()
-			want := prog.Source(nil)
+			want := render()
 			jw, _, werr := callGraphJSON(want, path)
 			if werr != nil {
 				t.Fatalf("GENERATOR: reference rename does not compile: %v\n%s", werr, want)
